@@ -121,11 +121,16 @@ def run(chk):
                 'items of all / contents / children / iteration / indexing / descendants / text as object ids, the parent of '
                 'every item handed out and the parent chain of every descendant and search result; ViewsTrace.tla (TLC) checks '
                 'the relations the property states between those recorded views. A case is a document.')
-    sc = [('docs', {'Budget': 3 if quick else 4}),
-          ('blank', {'Budget': 3 if quick else 4, 'TextPool': [' ', '\n', 'a', ' \n ', '\r', '\r\n', '\t', '\x0c', '\u00a0'], 'ComPool': [], 'MathKinds': ['$'], 'MEnvNames': [],
+    sc = [('docs', {'Budget': 3}),
+          ('blank', {'Budget': 3, 'TextPool': [' ', '\n', 'a', ' \n ', '\r', '\r\n', '\t', '\x0c', '\u00a0'], 'ComPool': [], 'MathKinds': ['$'], 'MEnvNames': [],
                      'VerbNames': ['verbatim', 'lstlisting'], 'VerbBodies': [' ', '\n', 'x'], 'Leaves': [], 'MaxSib': 3}),
           ('deep', {'Budget': 4 if quick else 5, 'TextPool': ['t', ' '], 'ComPool': [], 'MathKinds': ['$'], 'MEnvNames': [],
                     'VerbNames': [], 'Leaves': [], 'CmdNames': ['a'], 'EnvNames': ['e'], 'Labels': [''], 'MaxSib': 2, 'MaxDepth': 4, 'MaxArgs': 1})]
+    if not quick:       # one node more over reduced pools (every document is validated by TLC, which bounds what fits)
+        sc.append(('docs4', {'Budget': 4, 'TextPool': ['a', ' ', '\n\n'], 'ComPool': ['c'], 'Leaves': [], 'MathKinds': ['$', '\\['], 'VerbBodies': ['x'],
+                             'CmdNames': ['a'], 'Labels': ['']}))
+        sc.append(('blank4', {'Budget': 4, 'TextPool': [' ', '\n', 'a', '\r'], 'ComPool': [], 'MathKinds': ['$'], 'MEnvNames': [], 'VerbNames': ['verbatim'],
+                              'VerbBodies': [' ', 'x'], 'Leaves': [], 'MaxSib': 3, 'CmdNames': ['a'], 'Labels': ['']}))
     for label, pools in sc:
         recs, p = D.generate(chk, label, pools, INV)
         views = obs.pmap(_rec_job, [(from_atoms(r['i']), tuple(p['UserSkipG'])) for r in recs])
